@@ -35,6 +35,7 @@ type Program struct {
 	U         *Universe
 	RepoDir   string
 	closable  map[string]bool // channel roles that some function of the module closes
+	closableElems []types.Type // element types of the channels the module closes
 	loopCache map[*ssa.Function][]*Loop
 	dtCache   map[string]*Datatype
 	typeTags  map[string]int
@@ -122,6 +123,9 @@ func LoadProgram(repo string) (*Program, error) {
 				if c, ok := in.(ssa.CallInstruction); ok {
 					if bi, ok := c.Common().Value.(*ssa.Builtin); ok && bi.Name() == "close" {
 						P.closable[chanRole(c.Common().Args[0])] = true
+						if ct, ok := c.Common().Args[0].Type().Underlying().(*types.Chan); ok {
+							P.closableElems = append(P.closableElems, ct.Elem())
+						}
 					}
 				}
 			}
@@ -157,7 +161,13 @@ func LoadProgram(repo string) (*Program, error) {
 		case "iface":
 			P.Iface[c.Pkg+"."+c.Name] = c
 		case "chan":
-			P.ChanInv[c.Name] = c
+			if prev := P.ChanInv[c.Name]; prev != nil {
+				prev.Ensures = append(prev.Ensures, c.Ensures...)
+				prev.Assumes = append(prev.Assumes, c.Assumes...)
+				prev.Requires = append(prev.Requires, c.Requires...)
+			} else {
+				P.ChanInv[c.Name] = c
+			}
 		case "functype":
 			P.FuncType[c.Name] = c
 		}
@@ -175,6 +185,22 @@ func (P *Program) pos(p token.Pos) string {
 		rel = ps.Filename
 	}
 	return fmt.Sprintf("%s:%d", rel, ps.Line)
+}
+
+// mayBeClosed: can a channel of this type be one the module closes? Channels of different
+// element types never alias, so only element types of closed channels qualify. (Channels
+// supplied and closed by the user are the user's responsibility.)
+func (P *Program) mayBeClosed(t types.Type) bool {
+	ct, ok := t.Underlying().(*types.Chan)
+	if !ok {
+		return true
+	}
+	for _, e := range P.closableElems {
+		if types.Identical(e, ct.Elem()) {
+			return true
+		}
+	}
+	return false
 }
 
 // ---------------------------------------------------------------------------
@@ -424,6 +450,10 @@ func (P *Program) instrMods(fn *ssa.Function, in ssa.Instruction, fresh map[ssa.
 		}
 		if k != "" {
 			m[k] = true
+			if k == "F$Bar$priority" {
+				m[ghHord] = true
+				m[ghHdirty] = true
+			}
 			return
 		}
 		// store through a pointer value
@@ -443,6 +473,9 @@ func (P *Program) instrMods(fn *ssa.Function, in ssa.Instruction, fresh map[ssa.
 	case *ssa.Send:
 		m[ghSent] = true
 		m[ghLast] = true
+		if ct := P.ChanInv[chanRole(x.Chan)]; ct != nil && len(ct.Requires) > 0 {
+			m[ghClosed] = true
+		}
 	case *ssa.Select:
 		for _, s := range x.States {
 			if s.Dir == types.SendOnly {
